@@ -121,7 +121,7 @@ double Gamma(unsigned ia)
 		do {
 			v1 = Random();
 			v2 = 2.0 * Random() - 1.0;
-		} while(v1 * v1 + v2 * v2 > 1.0);
+		} while(v1 == 0.0 || v1 * v1 + v2 * v2 > 1.0);
 
 		y = v2 / v1;
 		s = sqrt(2.0 * am + 1.0) * y;
